@@ -528,10 +528,21 @@ def _desugar_comprehension_loops(stmts):
         nxt = stmts[i + 1] if i + 1 < len(stmts) else None
         comp = None
         loop = None
+        between = []
+        if isinstance(s, ast.Assign) and len(s.targets) == 1 and isinstance(s.targets[0], ast.Name) and isinstance(s.value, (ast.ListComp, ast.GeneratorExp)):
+            # statements between the comprehension and its loop that only bind empty containers / constants may stay in front
+            j = i + 1
+            while j < len(stmts) and isinstance(stmts[j], ast.Assign) and all(isinstance(t, ast.Name) for t in stmts[j].targets) \
+                    and (isinstance(stmts[j].value, ast.Constant) or isinstance(stmts[j].value, (ast.Dict, ast.List, ast.Set, ast.Tuple)) and not ast.dump(stmts[j].value).count("Name(")) \
+                    and not any(isinstance(n, ast.Name) and n.id == s.targets[0].id for n in ast.walk(stmts[j])):
+                j += 1
+            if j > i + 1 and j < len(stmts) and isinstance(stmts[j], ast.For):
+                between = stmts[i + 1:j]
+                nxt = stmts[j]
         if isinstance(s, ast.Assign) and len(s.targets) == 1 and isinstance(s.targets[0], ast.Name) and isinstance(s.value, (ast.ListComp, ast.GeneratorExp)) \
                 and isinstance(nxt, ast.For) and isinstance(nxt.iter, ast.Name) and nxt.iter.id == s.targets[0].id and not nxt.orelse:
             name = s.targets[0].id
-            used_elsewhere = any(isinstance(n, ast.Name) and n.id == name for st in stmts[i + 2:] for n in ast.walk(st)) or \
+            used_elsewhere = any(isinstance(n, ast.Name) and n.id == name for st in stmts[i + 2 + len(between):] for n in ast.walk(st)) or \
                 any(isinstance(n, ast.Name) and n.id == name for st in nxt.body for n in ast.walk(st))
             if not used_elsewhere:
                 comp, loop = s.value, nxt
@@ -545,9 +556,11 @@ def _desugar_comprehension_loops(stmts):
         # 'continue' in the body still means "next element" (the body is the tail of the innermost generated loop);
         # 'break' only keeps its meaning when a single real loop is generated
         if comp is not None and (not _has(ast.Module(body=loop.body, type_ignores=[]), ast.Break) or real_loops(comp) == 1):
+            if loop is not s:
+                out.extend(between)
             out.append(_comp_to_loops(comp, loop.target, _desugar_comprehension_loops(loop.body), loop))
             if loop is not s:
-                i += 1
+                i += 1 + len(between)
         else:
             out.append(s)
         i += 1
